@@ -14,7 +14,7 @@ PROP = "C11"
 
 PROFILE = dict(deps_kinds=["generic_ref"] * 3 + ["impl_ref"] * 3 + ["no_deps"], max_arity=5,
                forms=["plain"] * 7 + ["wild", "destr", "destr"], types=["i32", "i32", "u8", "bool", "str", "tup", "N"],
-               rets=["owned", "owned", "unit"], p_async=0.35, p_unsafe=0.0, p_extern=0.0, p_generic_param=0.0, p_lifetimes=0.0,
+               rets=["owned", "owned", "unit"], p_async=0.35, p_unsafe=0.12, p_extern=0.0, p_generic_param=0.0, p_lifetimes=0.0,
                p_const=0.0, vis=["", "pub", "pub(crate)"], p_same_type=0.7)
 
 
@@ -115,12 +115,12 @@ def build_fnmod(cid, rng):
     rng.shuffle(order)
     for fi in order:
         f = fns[fi]
-        wrap = (lambda c: "::vrt::block_on(%s)" % c) if f.is_async else (lambda c: c)
+        wrap = f.wrap_call
         _s, e_m, d_m = f.call_args(argsets[fi][0], "%dm" % fi)
         D.append('      let r = %s; ::vrt::kv("r%d", ::std::format!("{:?}", r));' % (wrap("u.%s(%s)" % (f.name, ", ".join(e_m))), fi))
     D.append("    }")
     for fi, f in enumerate(fns):
-        wrap = (lambda c: "::vrt::block_on(%s)" % c) if f.is_async else (lambda c: c)
+        wrap = f.wrap_call
         b0 = argsets[fi][0]
         _s, e_p, d_p = f.call_args(b0, "%dp" % fi)
         _s, e_i, d_i = f.call_args(b0, "%di" % fi)
